@@ -714,6 +714,16 @@ impl Sub for &Number {
     }
 }
 
+/// `Ratio::checked_div` takes gcd(0, i32::MIN) -- which panics -- when a zero is divided
+/// by a ratio whose numerator is i32::MIN; a zero dividend needs no division.
+fn checked_div_rational(lhs: &Rational32, rhs: &Rational32) -> Option<Rational32> {
+    if *lhs.numer() == 0 && *rhs.numer() != 0 {
+        Some(Rational32::from_integer(0))
+    } else {
+        lhs.checked_div(rhs)
+    }
+}
+
 impl Div for Number {
     type Output = Number;
     fn div(self, rhs: Self) -> Self::Output {
@@ -754,7 +764,7 @@ impl Div for &Number {
                 Number::Float(rhs) => (*lhs as f64 / rhs).into(),
                 Number::Rational(rhs) => {
                     if lhs.to_i32().is_some() {
-                        match Rational32::from_integer(*lhs as i32).checked_div(rhs) {
+                        match checked_div_rational(&Rational32::from_integer(*lhs as i32), rhs) {
                             Some(num) => num.into(),
                             None => (*lhs as f64 / rhs.to_f64().unwrap_or(f64::NAN)).into(),
                         }
@@ -793,7 +803,10 @@ impl Div for &Number {
                 Number::Float(rhs) => (lhs.to_f64().unwrap() / *rhs).into(),
                 Number::Rational(rhs) => {
                     if lhs.to_i32().is_some() {
-                        match Rational32::from_integer(lhs.to_i32().unwrap()).checked_div(rhs) {
+                        match checked_div_rational(
+                            &Rational32::from_integer(lhs.to_i32().unwrap()),
+                            rhs,
+                        ) {
                             Some(num) => num.into(),
                             None => {
                                 (lhs.to_f64().unwrap() / rhs.to_f64().unwrap_or(f64::NAN)).into()
@@ -834,7 +847,7 @@ impl Div for &Number {
                         (lhs.to_f64().unwrap_or(f64::MAX) / rhs.to_f64().unwrap()).into()
                     }
                 }
-                Number::Rational(rhs) => match lhs.checked_div(rhs) {
+                Number::Rational(rhs) => match checked_div_rational(lhs, rhs) {
                     Some(num) => num.into(),
                     None => {
                         (lhs.to_f64().unwrap_or(f64::NAN) / rhs.to_f64().unwrap_or(f64::NAN)).into()
